@@ -134,9 +134,11 @@ JudgeStmt(c, i, bytes, off, cgb) ==
                         op |-> IF s.k \in {"ins", "br", "far", "raw", "data"} THEN s.mn ELSE s.k,
                         bits |-> bits, obs |-> bytes, psz |-> c.psz[i], cgbits |-> cgb, dev |-> ""]
       \* branches: the exact step of the known finding D_JmpSize (fixed pass-1 estimate, form chosen by distance)
-      IsJmpDev == /\ s.k = "br" /\ (s.tgt.t = "n" \/ s.tgt.nm \in DOMAIN c.sym)
+      IsEquTgt == s.k = "br" /\ s.tgt.t = "l" /\ s.tgt.nm \notin DOMAIN c.sym /\ s.tgt.nm \in DOMAIN env.equ /\ Defined(env.equ[s.tgt.nm], env)
+      IsJmpDev == /\ s.k = "br" /\ (s.tgt.t = "n" \/ s.tgt.nm \in DOMAIN c.sym \/ IsEquTgt)
                   /\ c.psz[i] = GoskJmpEstimateT(s.mn, bits, s.tgt.t = "n")
-                  /\ bytes = GoskBranchBytes(s.mn, c.org + off, IF s.tgt.t = "n" THEN s.tgt.v ELSE c.sym[s.tgt.nm] + s.tgt.add, cgb)
+                  /\ bytes = GoskBranchBytes(s.mn, c.org + off,
+                                             IF s.tgt.t = "n" THEN s.tgt.v ELSE IF IsEquTgt THEN Eval(env.equ[s.tgt.nm], env) + s.tgt.add ELSE c.sym[s.tgt.nm] + s.tgt.add, cgb)
       size == IF Len(bytes) # c.psz[i]
               THEN {[Mk(<<"C03">>, "pass-1 size differs from emitted length")
                      EXCEPT !.dev = IF s.k = "ins" /\ cgb # bits /\ cgb = c.bits /\ OpsDefined(s.ops, env)
@@ -211,10 +213,14 @@ JudgeEnd(c, e) ==
       Mk(i, tags, why, obs) == [id |-> c.id, i |-> i, at |-> "end", tags |-> tags, why |-> why,
                                 sk |-> IF i > 0 THEN c.stmts[i].k ELSE "", op |-> IF i > 0 /\ c.stmts[i].k \in {"br", "far"} THEN c.stmts[i].mn ELSE "",
                                 bits |-> IF i > 0 THEN c.bitsS[i] ELSE 0, obs |-> obs, dev |-> ""]
-      JmpDev(j) == LET s == c.stmts[j] IN
-                   /\ (s.tgt.t = "n" \/ s.tgt.nm \in DOMAIN c.sym)
+      P1Env(j) == [sym |-> c.sym, equ |-> EquAt(c, j), dollar |-> c.locB[j]]
+      JmpDev(j) == LET s == c.stmts[j]
+                       isequ == s.tgt.t = "l" /\ s.tgt.nm \notin DOMAIN c.sym /\ s.tgt.nm \in DOMAIN EquAt(c, j) /\ Defined(EquAt(c, j)[s.tgt.nm], P1Env(j))
+                   IN
+                   /\ (s.tgt.t = "n" \/ s.tgt.nm \in DOMAIN c.sym \/ isequ)
                    /\ c.psz[j] = GoskJmpEstimateT(s.mn, c.bitsS[j], s.tgt.t = "n")
-                   /\ c.sb[j] = GoskBranchBytes(s.mn, c.org + RealOff(j), IF s.tgt.t = "n" THEN s.tgt.v ELSE c.sym[s.tgt.nm] + s.tgt.add, c.cgbits[j])
+                   /\ c.sb[j] = GoskBranchBytes(s.mn, c.org + RealOff(j),
+                                                IF s.tgt.t = "n" THEN s.tgt.v ELSE IF isequ THEN Eval(EquAt(c, j)[s.tgt.nm], P1Env(j)) + s.tgt.add ELSE c.sym[s.tgt.nm] + s.tgt.add, c.cgbits[j])
       hook == IF "out" \in DOMAIN e /\ e.fmt = "" /\ e.out # Flatten(c.sb)
               THEN {Mk(0, <<"HOOK">>, "ocode chunks do not concatenate to the output file", << >>)} ELSE {}
       cnt == IF e.nstmt # n THEN {Mk(0, <<"SYNC">>, "number of statements differs from the rendered program", <<e.nstmt, n>>)} ELSE {}
@@ -227,8 +233,13 @@ JudgeEnd(c, e) ==
       total == IF e.loc - c.org # RealOff(n + 1)
                THEN {Mk(0, <<"C03">>, "final location counter differs from origin + output length", <<e.loc, c.org, RealOff(n + 1)>>)} ELSE {}
       brs == {j \in 1..n : c.stmts[j].k = "br" /\ j \notin c.dg /\ c.sb[j] # << >>}
-      TgtOK(j) == LET t == c.stmts[j].tgt IN t.t = "n" \/ LabIdx(t.nm) # {}
-      Tgt(j) == LET t == c.stmts[j].tgt IN IF t.t = "n" THEN t.v ELSE RealAddr(t.nm) + t.add
+      \* a branch target is a number, a label, or an EQU name whose definition evaluates (possibly through labels)
+      RealSym == [nm \in {c.stmts[x].nm : x \in {y \in 1..n : c.stmts[y].k = "label"}} |-> RealAddr(nm)]
+      REnv(j) == [sym |-> RealSym, equ |-> EquAt(c, j), dollar |-> c.org + RealOff(j)]
+      TgtOK(j) == LET t == c.stmts[j].tgt IN
+                  t.t = "n" \/ LabIdx(t.nm) # {} \/ (t.nm \in DOMAIN EquAt(c, j) /\ Defined(EquAt(c, j)[t.nm], REnv(j)))
+      Tgt(j) == LET t == c.stmts[j].tgt IN
+                IF t.t = "n" THEN t.v ELSE IF LabIdx(t.nm) # {} THEN RealAddr(t.nm) + t.add ELSE Eval(EquAt(c, j)[t.nm], REnv(j)) + t.add
       brrej == {[Mk(j, IF c.cgbits[j] # c.bitsS[j] /\ c.cgbits[j] \in {16, 32}
                          /\ BranchDenotes(c.sb[j], c.stmts[j].mn, c.org + RealOff(j), Tgt(j), c.cgbits[j])
                       THEN <<"C17">> ELSE <<"C04">>,
